@@ -29,7 +29,18 @@ func (f *file) q(p *Pkg) string {
 	return alias + "."
 }
 func (f *file) vt() string   { f.imports[vtPath] = "vt"; return "vt." }
-func (f *file) wire() string { f.imports[wirePath] = "wire"; return "wire." }
+func (f *file) wire() string {
+	switch f.r.prog.WireImport {
+	case 1:
+		f.imports[wirePath] = "w"
+		return "w."
+	case 2:
+		f.imports[wirePath] = "."
+		return ""
+	}
+	f.imports[wirePath] = "wire"
+	return "wire."
+}
 
 func (f *file) render(header string) string {
 	var sb strings.Builder
